@@ -899,3 +899,7 @@ M("c11-revert-F42-signed-char-code", ["C11"], "break",
   [("sgramm.y", "	  term.code = (unsigned char) term.repr [1];", "	  term.code = term.repr [1];")], "C11-charcode")
 M("c11-charcode-mask-benign", ["C11"], "benign",
   [("sgramm.y", "	  term.code = (unsigned char) term.repr [1];", "	  term.code = *(unsigned char *) (term.repr + 1);")])
+M("c11-revert-F43-code-not-free", ["C11"], "break",
+  [("sgramm.y", "	  for (j = 0; j < num; j++)\n	    if (arr[j].code == code)\n	      {\n		code++;\n		j = -1;\n	      }\n", "")], "implicit-code-free")
+M("c11-free-code-while-form-benign", ["C11"], "benign",
+  [("sgramm.y", "	  for (j = 0; j < num; j++)\n	    if (arr[j].code == code)\n	      {\n		code++;\n		j = -1;\n	      }\n", "	  j = 0;\n	  while (j < num)\n	    if (arr[j].code != code)\n	      j++;\n	    else\n	      {\n		code++;\n		j = 0;\n	      }\n")])
